@@ -275,6 +275,13 @@ def run_check(prop, tier):
             coverage["states"] += hr["coverage"]["states"]
             coverage["transitions"] += hr["coverage"]["transitions"]
             coverage["traces_validated_against_impl"] += hr["coverage"]["traces_validated_against_impl"]
+            import check_hub2
+            h2 = check_hub2.collect("C11", tier)
+            violations += h2["violations"]
+            known_hits.update(h2["known_hits"])
+            notes += h2["notes"]
+            coverage["two_real_hubs"] = h2["coverage"]
+            coverage["traces_validated_against_impl"] += h2["coverage"]["traces_validated_against_impl"]
         vlib.write_evidence(prop, tier, "model_checking", coverage, time.time() - t0, len(violations),
                             assumptions=["handlers of one connection run one at a time (no intra-handler interleaving)",
                                          "harness fakes of the websocket writer and the hub behave like the real neighbours",
